@@ -127,3 +127,42 @@ func init() {
 		return Str{b}
 	})
 }
+
+// sort.Slice / sort.SliceStable use reflection (reflectlite.Swapper) to swap elements; here the
+// slice is sorted in place by a stable insertion sort that calls the real less function (each
+// comparison on symbolic data forks like any other branch). Both get the stable order, which is one
+// of the orders sort.Slice may produce.
+func init() {
+	sortSlice := func(fr *frame, args []Value) Value {
+		it := fr.it
+		ifc, ok := args[0].(Iface)
+		if !ok {
+			panic(engineErr("sort.Slice on %T", args[0]))
+		}
+		sl, ok := ifc.v.([]Value)
+		if !ok {
+			if n, _ := isNilValue(ifc); n || ifc.v == nil {
+				return nil
+			}
+			panic(engineErr("sort.Slice on %T", ifc.v))
+		}
+		less := func(i, j int) bool {
+			r := it.call(fr, nil, args[1], []Value{it.mkInt(i), it.mkInt(j)})
+			t, ok := r.(*Term)
+			if !ok {
+				panic(engineErr("sort.Slice less returned %T", r))
+			}
+			return it.branch(t)
+		}
+		for i := 1; i < len(sl); i++ {
+			for j := i; j > 0 && less(j, j-1); j-- {
+				a, b := sl[j], sl[j-1]
+				it.store(&sl[j], b)
+				it.store(&sl[j-1], a)
+			}
+		}
+		return nil
+	}
+	reg("sort.Slice", sortSlice)
+	reg("sort.SliceStable", sortSlice)
+}
